@@ -258,6 +258,7 @@ func c08Run(env *verifsim.Env, raw json.RawMessage) *verifsim.Violation {
 	var smu sync.Mutex
 	var storedDocs []stored
 	latest := map[string]stored{}
+	regressed := map[string]string{}
 	n1.node.Observe = func(o simstore.OpInfo) {
 		if o.Class != "doc" || o.Err != nil || o.Xattrs == nil || o.Op == "UpdateXattrs" {
 			return
@@ -275,6 +276,11 @@ func c08Run(env *verifsim.Env, raw json.RawMessage) *verifsim.Violation {
 		}
 		smu.Lock()
 		st := stored{seq: sd.Sequence, rev: string(sd.Rev), key: o.Key}
+		if prev, ok := latest[o.Key]; ok && prev.seq > st.seq && o.Op == "WriteResurrectionWithXattrs" {
+			// the recorded finding (C05/C07): a resurrection insert without compare-and-swap stored a lower sequence
+			// over a newer state
+			regressed[o.Key] = fmt.Sprintf("sequence %d stored over sequence %d by a resurrection write", st.seq, prev.seq)
+		}
 		storedDocs = append(storedDocs, st)
 		latest[o.Key] = st
 		smu.Unlock()
@@ -609,6 +615,12 @@ func c08Run(env *verifsim.Env, raw json.RawMessage) *verifsim.Violation {
 					}
 					if got.SeqNum != st.seq {
 						vio = verifsim.Vf("C08", "client-complete", "client holds %s at seq %d rev %s but the document is at seq %d", k, got.SeqNum, got.Rev, st.seq)
+						smu.Lock()
+						if why := regressed[k]; why != "" {
+							vio.Detail += " (" + why + ")"
+							vio.Key = "unguarded-resurrection-write"
+						}
+						smu.Unlock()
 						return
 					}
 				}
